@@ -921,12 +921,78 @@ def judge_cases(ctx: Ctx, st: Optional[LeanStatus], todo: List[Dict[str, Any]], 
                         "model": ({"events": model_out[ci * 3]["events"], "outcome": model_out[ci * 3]["outcome"]} if model_out else None)})
 
 
+def fork_map(fn: Any, parts: List[Any], procs: Optional[int] = None, timeout: float = 1500.0) -> List[Tuple[str, Any]]:
+    """fn(part) for every part, each in a child forked directly from this (single-threaded) process,
+    at most `procs` at a time; results come back pickled over a pipe.  Returns ("ok", value) or
+    ("exc", (class name, message, traceback)) per part, in order."""
+    import io
+    import os
+    import pickle
+    import selectors
+    import sys
+    import time
+    import traceback
+
+    procs = procs or int(os.environ.get("VERIF_PROCS", "14"))
+    results: List[Any] = [None] * len(parts)
+    pending = list(enumerate(parts))
+    running: Dict[int, List[Any]] = {}
+    sel = selectors.DefaultSelector()
+    deadline = time.time() + timeout
+    try:
+        while pending or running:
+            while pending and len(running) < procs:
+                idx, part = pending.pop(0)
+                r, w = os.pipe()
+                sys.stdout.flush()
+                pid = os.fork()
+                if pid == 0:
+                    try:
+                        os.close(r)
+                        sys.stdout = io.StringIO()
+                        try:
+                            out: Tuple[str, Any] = ("ok", fn(part))
+                        except BaseException as e:  # noqa: BLE001 - reported to the parent
+                            out = ("exc", (type(e).__name__, str(e)[:2000], traceback.format_exc()[-3000:]))
+                        try:
+                            data = pickle.dumps(out)
+                        except Exception as e:
+                            data = pickle.dumps(("exc", ("HarnessPickleError", repr(e), "")))
+                        with os.fdopen(w, "wb") as fh:
+                            fh.write(data)
+                    finally:
+                        os._exit(0)
+                os.close(w)
+                sel.register(r, selectors.EVENT_READ)
+                running[r] = [idx, pid, bytearray()]
+            for key, _ in sel.select(timeout=5):
+                fd = key.fd
+                chunk = os.read(fd, 1 << 20)
+                if chunk:
+                    running[fd][2] += chunk
+                    continue
+                idx, pid, buf = running.pop(fd)
+                sel.unregister(fd)
+                os.close(fd)
+                os.waitpid(pid, 0)
+                results[idx] = pickle.loads(bytes(buf)) if buf else ("exc", ("ChildDied", "no result", ""))
+            if time.time() > deadline:
+                raise common.Infra("forked correspondence slices timed out")
+    finally:
+        for fd, (idx, pid, buf) in running.items():
+            try:
+                os.kill(pid, 9)
+                os.waitpid(pid, 0)
+                os.close(fd)
+            except OSError:
+                pass
+    return results
+
+
 def judge_parallel(ctx: Ctx, st: Optional[LeanStatus], todo: List[Dict[str, Any]], res: Result, compare: bool = True,
                    chunk: int = 1000) -> None:
     """judge_cases on slices of `todo` in forked workers (each slice pipes its own lines through the
     driver); results are merged in slice order, so the outcome does not depend on scheduling"""
-    from . import engine
-
     if len(todo) <= chunk:
         judge_cases(ctx, st, todo, res, compare)
         return
@@ -937,7 +1003,7 @@ def judge_parallel(ctx: Ctx, st: Optional[LeanStatus], todo: List[Dict[str, Any]
         judge_cases(ctx, st, part, sub, compare)
         return sub
 
-    outs = engine.pmap_forked(work, [(part,) for part in slices], timeout=1500.0)
+    outs = fork_map(work, slices, timeout=1500.0)
     for i, (status, val) in enumerate(outs):
         if status == "ok":
             res.merge(val)
